@@ -104,6 +104,8 @@ def symbolic(world, replace_invert=True, extra=None):
         setg(ms, "norm", _Stub(pdf=S._unary("phi"), cdf=S._unary("Phi"), logcdf=lambda x: S.log(S._unary("Phi")(x))))
     ac = mods.get("approximate_conditional")
     if ac is not None and not isinstance(ac, Exception):
+        setg(ac, "vmap", S.vmap)
+        setg(ac, "lax", _Stub(stop_gradient=lambda x: x, while_loop=S.while_loop_contract))
         for nm in ("normal_pdf", "normal_cdf"):
             if nm in ac.__dict__:
                 setg(ac, nm, S._unary("phi" if nm.endswith("pdf") else "Phi"))
